@@ -218,41 +218,59 @@ class _GitTransaction:
         return self.__outer_context.__enter__()
 
     def __exit__(self, exc_type, exc_value, exc_trace):
-        if exc_value is not None:
-            self.__handler._transaction = None
-            self.__handler._git("reset", "--hard", self.__old_sha)
-            return self.__outer_context.__exit__(
-                exc_type, exc_value, exc_trace
-            )
+        committed = False
         try:
-            LOGGER.debug("Writing updated tree to database")
-            tree = self.__write_tree()
-
-            if self.__ignore_empty and tree == self.__get_old_tree_hash():
-                LOGGER.debug("Not creating empty commit (ignore_empty=True)")
-                return None
-
-            LOGGER.debug("Creating commit object with tree %s", tree)
-            commit = self.__commit(tree)
-            if self.__dry_run:
-                LOGGER.debug("Not updating branch pointers (dry_run=True)")
-                return None
-
-            LOGGER.debug("Updating ref %r to %s", self.__targetref, commit)
-            self.__handler._git("reset", "--soft", commit)
-            self.__update_target_ref(commit)
-
-            if not self.__push:
-                LOGGER.debug("Not pushing changes to remote (push=False)")
-                return None
-
-            LOGGER.debug("Pushing updated ref %r", self.__targetref)
-            self.__push_updates("origin")
+            if exc_value is None:
+                committed = self.__finish()
         finally:
-            del self.__old_sha
             self.__handler._transaction = None
-            self.__outer_context.__exit__(exc_type, exc_value, exc_trace)
+            try:
+                if not committed:
+                    self.__rollback()
+            finally:
+                del self.__old_sha
+                self.__outer_context.__exit__(exc_type, exc_value, exc_trace)
         return None
+
+    def __finish(self) -> bool:
+        """Commit the staged changes.
+
+        Returns
+        -------
+        bool
+            Whether the target ref was updated. If not, the work tree
+            still contains the changes and must be rolled back.
+        """
+        LOGGER.debug("Writing updated tree to database")
+        tree = self.__write_tree()
+
+        if self.__ignore_empty and tree == self.__get_old_tree_hash():
+            LOGGER.debug("Not creating empty commit (ignore_empty=True)")
+            return False
+
+        LOGGER.debug("Creating commit object with tree %s", tree)
+        commit = self.__commit(tree)
+        if self.__dry_run:
+            LOGGER.debug("Not updating branch pointers (dry_run=True)")
+            return False
+
+        LOGGER.debug("Updating ref %r to %s", self.__targetref, commit)
+        self.__handler._git("reset", "--soft", commit)
+        self.__update_target_ref(commit)
+
+        if not self.__push:
+            LOGGER.debug("Not pushing changes to remote (push=False)")
+            return True
+
+        LOGGER.debug("Pushing updated ref %r", self.__targetref)
+        self.__push_updates("origin")
+        return True
+
+    def __rollback(self) -> None:
+        """Put the work tree back to where the transaction started."""
+        LOGGER.debug("Rolling back the work tree to %s", self.__old_sha)
+        self.__handler._git("reset", "--hard", self.__old_sha)
+        self.__handler._git("clean", "-f", "-d", "-x")
 
     def record_update(self, filename: pathlib.PurePosixPath) -> None:
         """Record an updated file in the current transaction.
